@@ -119,6 +119,12 @@ family! {
     (47, "F0r:1.Ghx::sigs::Dim:1.P4.Pbool",   f47, None, [], (Dim<4>), bool),
     (48, "F0r:1.Pi32.Ghx::sigs::Flag:1.Ptrue", f48, None, [], (i32), Flag<true>),
     (49, "F0r:1.Pi32.Ghx::sigs::Flag:1.Pfalse", f49, None, [], (i32), Flag<false>),
+    // a wrapper around a function-pointer type next to that type itself (f04, f02): a gate that peels
+    // `fn() -> Wrapper<..>` off one side confuses exactly these
+    (50, "F0r:0.Gcore::task::poll::Poll:1.F0r:1.Pi32.Pbool", f50, None, [], (), std::task::Poll<fn(i32) -> bool>),
+    (51, "F0r:0.Gcore::task::poll::Poll:1.F0r:0.Pi32", f51, None, [], (), std::task::Poll<fn() -> i32>),
+    (52, "F0r:0.Gcore::task::poll::Poll:1.Pi32", f52, None, [], (), std::task::Poll<i32>),
+    (53, "F0r:0.Gcore::option::Option:1.F0r:1.Pi32.Pbool", f53, None, [], (), Option<fn(i32) -> bool>),
 }
 
 pub struct BoolEntry {
